@@ -50,6 +50,7 @@ def main(argv=None):
     ap.add_argument("prop")
     ap.add_argument("--tier", default=os.environ.get("VERIF_TIER", "quick"), choices=["quick", "thorough"])
     ap.add_argument("--replay")
+    ap.add_argument("--list", help="print every evaluated rule instance whose rule contains this text (debugging aid)")
     a = ap.parse_args(argv)
     prop = a.prop.upper()
     if prop not in CLAIMED:
@@ -85,6 +86,10 @@ def main(argv=None):
         run.ob("checker.shape-not-recognised", "rule pack %s" % prop, False,
                "a rule of this pack could not be evaluated on the current tree (%s: %s at %s): the mechanism it was confirmed on has changed and its obligations must be re-confirmed" % (
                    type(e).__name__, str(e)[:120], where), key="checker.shape|%s|%s" % (prop, where))
+    if a.list is not None:
+        for o in run.obs:
+            if a.list in o["rule"]:
+                print("%-9s %s | %s | %s" % (o["verdict"], o["rule"], o["subject"][:70], o["why"][:150]))
     return run.finish(cmd)
 
 
